@@ -6,6 +6,7 @@ import (
 	"os"
 	"path/filepath"
 	"sort"
+	"strings"
 )
 
 // replay registry: check name -> function that re-executes one saved case
@@ -89,7 +90,25 @@ func Replay(check string, raw json.RawMessage) (*Violation, error) {
 
 // V builds a violation.
 func V(sig, format string, a ...any) *Violation {
-	return &Violation{Sig: sig, Message: fmt.Sprintf(format, a...)}
+	return &Violation{Sig: sig, Message: squeezeRuns(fmt.Sprintf(format, a...))}
+}
+
+// squeezeRuns abbreviates runs of more than 40 equal bytes in a message (the case itself is kept in full in the replay file).
+func squeezeRuns(s string) string {
+	var sb strings.Builder
+	for i := 0; i < len(s); {
+		j := i
+		for j < len(s) && s[j] == s[i] {
+			j++
+		}
+		if j-i > 40 && s[i] < 0x80 {
+			fmt.Fprintf(&sb, "%s…(%d×%q)…%s", s[i:i+3], j-i, s[i], s[i:i+3])
+		} else {
+			sb.WriteString(s[i:j])
+		}
+		i = j
+	}
+	return sb.String()
 }
 
 // Corpus re-executes the committed regression cases of the property
